@@ -113,4 +113,22 @@ func init() {
 (assert (forall ((A (Array Int Int)) (t Int) (v Int) (i Int)) (! (=> (<= i 0) (= (cntact A t v i) 0)) :pattern ((cntact A t v i)))))
 (assert (forall ((A (Array Int Int)) (t Int) (v Int) (i Int)) (! (=> (> i 0) (= (cntact A t v i) (+ (cntact A t v (- i 1)) (ite (= (sel_Int (select A (- i 1)) t) v) 1 0)))) :pattern ((cntact A t v i)))))
 `})
+	// enumeration of the (finite) key set of a map with string keys: mapkey(H,0..mapcard(H)-1) lists every key once
+	addPrelude(&PreludeFn{Name: "mapenum_Str", SMT: `
+(declare-fun mapcard_Str ((Array Str Bool)) Int)
+(declare-fun mapkey_Str ((Array Str Bool) Int) Str)
+(declare-fun mapidx_Str ((Array Str Bool) Str) Int)
+(assert (forall ((H (Array Str Bool))) (! (>= (mapcard_Str H) 0) :pattern ((mapcard_Str H)))))
+(assert (forall ((H (Array Str Bool)) (i Int)) (! (=> (and (<= 0 i) (< i (mapcard_Str H))) (and (select H (mapkey_Str H i)) (= (mapidx_Str H (mapkey_Str H i)) i))) :pattern ((mapkey_Str H i)))))
+(assert (forall ((H (Array Str Bool)) (k Str)) (! (=> (select H k) (and (<= 0 (mapidx_Str H k)) (< (mapidx_Str H k) (mapcard_Str H)) (= (mapkey_Str H (mapidx_Str H k)) k))) :pattern ((mapidx_Str H k)))))
+`})
+	addPrelude(&PreludeFn{Name: "mapcard_Str", Args: []string{"mapdom"}, Ret: "int", Deps: []string{"mapenum_Str"}})
+	addPrelude(&PreludeFn{Name: "mapkey_Str", Args: []string{"mapdom", "int"}, Ret: "str", Deps: []string{"mapenum_Str"}})
+	addPrelude(&PreludeFn{Name: "mapidx_Str", Args: []string{"mapdom", "str"}, Ret: "int", Deps: []string{"mapenum_Str"}})
+	// cntsince(A,d,k): number of snapshots A[j], j < k, dated on or after d (A = array of snapshot refs)
+	addPrelude(&PreludeFn{Name: "cntsince", Args: []string{"refslice", "int", "int"}, Ret: "int", Deps: []string{"fld_Snapshot_Date__Int"}, SMT: `
+(declare-fun cntsince ((Array Int Ref) Int Int) Int)
+(assert (forall ((A (Array Int Ref)) (d Int) (k Int)) (! (=> (<= k 0) (= (cntsince A d k) 0)) :pattern ((cntsince A d k)))))
+(assert (forall ((A (Array Int Ref)) (d Int) (k Int)) (! (=> (> k 0) (= (cntsince A d k) (+ (cntsince A d (- k 1)) (ite (>= (fld_Snapshot_Date__Int (select A (- k 1))) d) 1 0)))) :pattern ((cntsince A d k)))))
+`})
 }
